@@ -164,7 +164,8 @@ def render(prog, files=None):
         elif k == "opt":
             lines.append(ind + "= " + render_value(st["val"], None) + (" " + st["unit"] if st.get("unit") else ""))
         elif k == "opts":
-            lines.append(ind + "!options " + _json_leafs(st["vals"], None) + (" " + st["unit"] if st.get("unit") else ""))
+            body = render_ref(st["ref"]) if st.get("ref") else _json_leafs(st["vals"], None)
+            lines.append(ind + "!options " + body + (" " + st["unit"] if st.get("unit") else ""))
         elif k == "cond":
             q = '"' if "'" in render_expr(st["expr"]) else "'"
             lines.append(ind + "!condition (" + q + render_expr(st["expr"]) + q + ")")
@@ -566,12 +567,26 @@ def step(env, st):
         if k == "opt":
             if node.type == "bool":
                 raise Reject("options on bool")
-            node.options.append((leaf(st["val"], node.type), st.get("unit")))
+            if _is_ref(st["val"]):
+                v, u = _resolve(env, st["val"], node.type, st.get("unit"))
+                if v is None or isinstance(v, list):
+                    raise Undemanded("option line referring to an empty / array value")
+                node.options.append((v, u))
+            else:
+                node.options.append((leaf(st["val"], node.type), st.get("unit")))
         elif k == "opts":
             if node.type == "bool":
                 raise Reject("options on bool")
-            for v in st["vals"]:
-                node.options.append((leaf(v, node.type), st.get("unit")))
+            if st.get("ref"):
+                # the list is the referenced node's current value, in the unit the line states or else in that node's
+                v, u = _resolve(env, {"ref": st["ref"]}, node.type, st.get("unit"))
+                if not isinstance(v, list) or any(isinstance(x, list) or x is None for x in v):
+                    raise Undemanded("option list referring to a scalar / nested / empty value")
+                for x in v:
+                    node.options.append((x, u))
+            else:
+                for v in st["vals"]:
+                    node.options.append((leaf(v, node.type), st.get("unit")))
         elif k == "cond":
             node.cond = st["expr"]
         elif k == "fmt":
@@ -709,7 +724,7 @@ def observe_env(env):
                       getattr(n, "format", None), tags, bool(getattr(n, "constant", False)), bool(n.defined)))
     units = tuple(sorted((k, repr(v.get("magnitude")), repr(v.get("dimensions")), repr(v.get("value")),
                           repr(v.get("units"))) for k, v in env.units.units.items()))
-    return (tuple(nodes), units)
+    return (tuple(nodes), units, getattr(env, "envtype", None))
 
 
 def _plain(v):
@@ -879,7 +894,7 @@ def _prime_inspect_cache():
         f = f.f_back
 
 
-def execute(prog, scratch, base_env=None, api_sources=False, name="verif"):
+def execute(prog, scratch, base_env=None, api_sources=False, name="verif", docs=False):
     """Render `prog` (remote sources are written below `scratch` and removed again), parse it with the real library.
 
     -> (outcome, text) with outcome = ('ok', Environment) | ('err', TypeName, message).  The process-wide unit tables
@@ -910,7 +925,7 @@ def execute(prog, scratch, base_env=None, api_sources=False, name="verif"):
                 for st in api:
                     p.add_source(st["name"], files[st["name"]])
                 p.add_string(text)
-                return p.parse()
+                return p.parse_docs() if docs else p.parse()
         out = outcome(run)
         if api:
             text = "".join("add_source(%r)\n" % st["name"] for st in api) + text
